@@ -43,7 +43,7 @@ ASSUMPTIONS = [
     "C0 controls other than TAB/LF/CR (escaped as _xHHHH_ by text sinks) are left to C13; the empty string skips the skeleton comparison "
     "(assigning '' documents removal for slide names) and is not given to hyperlink addresses ('' removes the link)",
 ]
-WATCHDOG_S = {"quick": 600, "thorough": 3000}
+WATCHDOG_S = {"quick": 600, "thorough": 7200}
 
 CONTROL = "Abc"
 META = "&<>\"'"
@@ -121,19 +121,22 @@ class Deck:
         import pptx
 
         self.prs = pptx.Presentation()
-        self.tmp, self.uniq, self.nfile = tmp, uniq, 0
+        self.tmp, self.uniq, self.files = tmp, uniq, []
 
     def slide(self, layout=6):
         return self.prs.slides.add_slide(self.prs.slide_layouts[layout])
 
     def file(self, fname, data):
-        d = os.path.join(self.tmp, "f%d" % self.nfile)
-        self.nfile += 1
-        os.mkdir(d)
-        path = os.path.join(d, fname)
+        """A real file of that name in the unit's scratch directory; removed by cleanup() when the case is over."""
+        path = os.path.join(self.tmp, fname)
         with open(path, "wb") as fh:
             fh.write(data)
+        self.files.append(path)
         return path
+
+    def cleanup(self):
+        for path in self.files:
+            os.remove(path)
 
     def png(self, fname="img.png"):
         """A real PNG file of that name whose pixels no other case or call shares (images are de-duplicated by SHA-1)."""
@@ -141,7 +144,7 @@ class Deck:
 
         u = self.uniq
         img = Image.new("RGB", (5, 4), (u & 255, (u >> 8) & 255, (u >> 16) & 255))
-        img.putpixel((1, 1), ((u >> 24) & 255, self.nfile & 255, 7))
+        img.putpixel((1, 1), ((u >> 24) & 255, len(self.files), 7))
         buf = io.BytesIO()
         img.save(buf, "PNG")
         return self.file(fname, buf.getvalue())
@@ -554,10 +557,9 @@ def control_for(snk, tmp_root):
         from lxml import etree
         from vlib.xsdkit import PLAIN
 
-        tmp = os.path.join(tmp_root, "control")
-        os.makedirs(tmp, exist_ok=True)
-        d = Deck(tmp, 0xC0FFEE)
+        d = Deck(tmp_root, 0xC0FFEE)
         snk.do(d, CONTROL)  # an exception here is a harness / precondition failure: the worker reports inconclusive
+        d.cleanup()
         buf = io.BytesIO()
         d.prs.save(buf)
         members = read_package(buf.getvalue())
@@ -568,9 +570,8 @@ def control_for(snk, tmp_root):
 PRIORITY = ["raises", "saved-part-malformed", "structure-changed", "readback", "reopen"]
 
 
-def run_case(snk, s, acc, uniq, say=None):
+def run_case(snk, s, acc, uniq, tmp, say=None):
     from lxml import etree
-    from vlib import env
     from vlib.xsdkit import PLAIN
 
     import pptx
@@ -598,7 +599,7 @@ def run_case(snk, s, acc, uniq, say=None):
             return bad(stage, "%s raised %r" % (how, e), ":" + type(e).__name__)
         check(stage, how, got)
 
-    def observe(tmp):
+    def observe():
         nonlocal h
         ctl_members, ctl_skel = control_for(snk, tmp)
         d = Deck(tmp, uniq)
@@ -606,6 +607,8 @@ def run_case(snk, s, acc, uniq, say=None):
             h = snk.do(d, s)
         except Exception as e:  # noqa
             return bad("raises", "the call raised %r" % (e,), ":" + type(e).__name__)
+        finally:
+            d.cleanup()
         acc.count("calls_accepted")
         # (2a) live readers
         if snk.api:
@@ -656,8 +659,7 @@ def run_case(snk, s, acc, uniq, say=None):
             read_api("reopen", "public reader after re-open", prs2)
 
     h = {}
-    with env.Scratch("c05") as tmp:
-        observe(tmp)
+    observe()
     # one violation per case: the most telling observation; what follows from it is counted, not reported
     if found:
         top = min(PRIORITY.index(k) for k, _, _ in found)
@@ -702,14 +704,17 @@ def plan(tier, seed):
 
 
 def run_unit(unit, tier, seed, acc):
+    from vlib import env
+
     reg = sinks()
     acc.extra["sinks"] = sorted(reg)
     if unit["kind"] == "builtin":
         return run_builtin_names(acc)
     snk = reg[unit["sink"]]
     idx = sorted(reg).index(snk.name)
-    for j in range(unit["lo"], unit["hi"]):
-        run_case(snk, fit(gen_string(snk.name, j), snk), acc, uniq=(idx << 20) + j + 1)
+    with env.Scratch("c05") as tmp:
+        for j in range(unit["lo"], unit["hi"]):
+            run_case(snk, fit(gen_string(snk.name, j), snk), acc, (idx << 20) + j + 1, tmp)
 
 
 def replay(w, acc):
@@ -719,7 +724,10 @@ def replay(w, acc):
         snk = sinks()[w["sink"]]
         s = "".join(chr(c) for c in w["cps"])
         print("sink %s (class %s), string %r, expected stored value %r" % (snk.name, snk.cls, s, snk.exp(s)))
-        run_case(snk, s, acc, uniq=12345, say=lambda *a: print(*a))
+        from vlib import env
+
+        with env.Scratch("c05") as tmp:
+            run_case(snk, s, acc, 12345, tmp, say=lambda *a: print(*a))
     print("violations:", [(v["key"], v["what"][:300]) for v in acc.violations])
 
 
